@@ -209,8 +209,22 @@ def check_loader(out: Outcome, kind, rng, tier, root, unwrapped=False):
                 break
             out.nontrivial.add((kind, 'trunc', k, n))
         # --- garbage / empty / foreign pickle
-        for label, content in (('empty', b''), ('text', b'not a pickle'), ('random', bytes(rng.integers(0, 256, size=300).tolist())),
-                               ('pickled-int', pickle.dumps(12345)[:-1])):
+        unreadable = [('empty', b''), ('text', b'not a pickle'), ('random', bytes(rng.integers(0, 256, size=300).tolist())),
+                      ('pickled-int', pickle.dumps(12345)[:-1]),
+                      # contents on which unpickling fails with OTHER exception types than UnpicklingError / EOFError
+                      ('unknown-protocol', b'\x80\x09' + B[2:]), ('text-lines', b'garbage\n'), ('lammps-dump-text', b'ITEM: TIMESTEP\n0\n'),
+                      ('bad-utf8-string', b'\x80\x04\x8c\x02\xff\xfe.'), ('bad-int-literal', b'I12x\n.'), ('reduce-on-int', b'\x80\x04K\x01K\x02\x85R.'),
+                      ('stale-class', b'\x80\x04\x95\x1f\x00\x00\x00\x00\x00\x00\x00\x8c\x0bgemdat.gone\x94\x8c\x07Missing\x94\x93\x94)\x81\x94.'),
+                      ('one-byte-damaged', B[:len(B) // 2] + bytes([B[len(B) // 2] ^ 0x41]) + B[len(B) // 2 + 1:])]
+        for label, content in unreadable:
+            try:
+                obj = pickle.loads(content)
+            except Exception as e_:  # noqa: BLE001
+                out.count(f'unreadable-kind:{type(e_).__name__}')
+            else:
+                # the content still decodes (to whatever object): not an 'unreadable' cache, outside this clause
+                out.count(f'damaged-content-still-decodes-to-{type(obj).__name__}')
+                continue
             out.evaluations += 1
             cfile.write_bytes(content)
             got = result_sig(env.load({}))
